@@ -92,6 +92,10 @@ def r14_1(ctx):
         src = shared.resolve_mem(can, ct2[2][2])
         ok = src[0] == 'agg' and src[3] == 'Solid' and strip_all(src[4][0][1]) == ('param', 2)
         ctx.check(ok, R, ckey + '|slow source', call_line(c, bi2), 'fill with Source::Solid(solid)', 'clear\'s clipped route does not fill with the requested colour')
+        # the clipped route fills under the identity: a store of identity() to self.transform dominates the fill
+        ids = [pt for a, v, pt, kind in can.stores if kind == 'assign' and field_path(a) == (('param', 1), ['transform']) and is_call(v, 'identity')]
+        okid = any(can.cfg.dominates(pt[0], bi2) for pt in ids)
+        ctx.check(okid, R, ckey + '|slow route identity', call_line(c, bi2), 'transform = identity before the clipped fill', 'clear\'s clipped route fills (0,0,width,height) under the current transform instead of the identity: it differs from the direct clear whenever a transform is set')
         rects = [ct3 for bi3, d, ct3 in calls_in(ctx, c) if d == 'raqote::path_builder::PathBuilder::rect']
         ok = len(rects) == 1 and const_val(rects[0][2][1]) == 0 and const_val(rects[0][2][2]) == 0 and is_self_field(strip_casts(rects[0][2][3], ('IntToFloat',)), 'width') and is_self_field(strip_casts(rects[0][2][4], ('IntToFloat',)), 'height')
         ctx.check(ok, R, ckey + '|slow rect', c.loc(), 'rect(0, 0, width, height)', 'clear\'s clipped route does not cover (0, 0, width, height)')
@@ -131,4 +135,4 @@ def r14_3(ctx):
 def run(ctx):
     import props.c13 as c13
     import engine
-    engine.run_rules(ctx, [r14_1, dt.r02_4, dt.r02_5, r14_3, c13.r13_4])
+    engine.run_rules(ctx, [r14_1, dt.r02_4, dt.r02_5, r14_3, c13.r13_4, c13.r13_5, dt.r03_8])
